@@ -22,7 +22,10 @@ import (
 
 //verif:include ../dnsdata/rdb/zz_verif_model.go
 //verif:include ../db/zz_verif_world.go
-//verif:harness H01_res property=C01 native=no quick=k=1,layout=0;k=1,layout=1;k=2,layout=2 thorough=k=2,layout=0;k=2,layout=1;k=3,layout=2
+//verif:subst H01_res github.com/facebookincubator/dns/dnsrocks/dnsserver.typeToStatsKey github.com/facebookincubator/dns/dnsrocks/dnsserver.VerifStatsKeyStub
+//verif:subst H01_nested github.com/facebookincubator/dns/dnsrocks/dnsserver.typeToStatsKey github.com/facebookincubator/dns/dnsrocks/dnsserver.VerifStatsKeyStub
+//verif:harness H01_res property=C01 native=no quick=k=1,layout=0;k=1,layout=2 thorough=k=1,layout=1;k=2,layout=2;k=2,layout=0
+//verif:harness H01_nested property=C01 native=no quick=layout=2,extra=0;layout=0,extra=0 thorough=layout=1,extra=0;layout=2,extra=1;layout=0,extra=1
 
 func verifC01Pool() []dnsdata.VerifRec {
 	return []dnsdata.VerifRec{
@@ -40,6 +43,9 @@ func verifC01Pool() []dnsdata.VerifRec {
 		{Kind: '\'', Dom: []byte("c.z"), Wild: true, TTL: 311, Txt: []byte("w-c")},
 		{Kind: 'C', Dom: []byte("z"), Wild: true, TTL: 312, Target: []byte("c.z")},
 		{Kind: '+', Dom: []byte("z"), TTL: 313, IP: []byte{192, 0, 2, 1}, Weight: 1},
+		{Kind: '.', Dom: []byte("s.z"), TTL: 314, Target: []byte("ns.s.z"), IP: []byte{192, 0, 2, 54}, Loc: verifL1},
+		{Kind: '.', Dom: []byte("g.c.z"), TTL: 315, Target: []byte("ns.g.c.z"), IP: []byte{192, 0, 2, 55}},
+		{Kind: '&', Dom: []byte("z"), TTL: 316, Target: []byte("ns2.z"), IP: []byte{192, 0, 2, 3}, Loc: verifL1}, // a located NS at the apex next to the untagged SOA
 	}
 }
 
@@ -60,6 +66,19 @@ func refName(dom []byte) string {
 	return strings.ToLower(string(dom)) + "."
 }
 
+// refWire: owner names are compared in lower-case wire form (length-prefixed labels), so that a
+// label may contain any byte, dots included.
+func refWire(dom []byte) string {
+	var out []byte
+	for _, l := range strings.Split(strings.ToLower(string(dom)), ".") {
+		if len(l) > 0 {
+			out = append(out, byte(len(l)))
+			out = append(out, l...)
+		}
+	}
+	return string(append(out, 0))
+}
+
 // refFlatten expands abstract records into the resource records a data file declares.
 func refFlatten(recs []dnsdata.VerifRec) []refRR {
 	var out []refRR
@@ -69,13 +88,20 @@ func refFlatten(recs []dnsdata.VerifRec) []refRR {
 		}
 	}
 	for _, r := range recs {
-		o := refName(r.Dom)
+		o := refWire(r.Dom)
 		switch r.Kind {
 		case 'Z':
 			out = append(out, refRR{o, false, dns.TypeSOA, fmt.Sprintf("SOA %d", r.TTL), r.Loc})
+		case '.':
+			// one line declares the SOA (tinydns-data: TTL 2560 whatever the line's non-zero
+			// TTL), the NS and the address of the name server (the line's TTL), all with the
+			// line's location
+			out = append(out, refRR{o, false, dns.TypeSOA, "SOA 2560", r.Loc})
+			out = append(out, refRR{o, false, dns.TypeNS, fmt.Sprintf("NS %d %s", r.TTL, refName(r.Target)), r.Loc})
+			addr(refWire(r.Target), false, r.TTL, r.IP, r.Loc)
 		case '&':
 			out = append(out, refRR{o, false, dns.TypeNS, fmt.Sprintf("NS %d %s", r.TTL, refName(r.Target)), r.Loc})
-			addr(refName(r.Target), false, r.TTL, r.IP, r.Loc)
+			addr(refWire(r.Target), false, r.TTL, r.IP, r.Loc)
 		case '+':
 			addr(o, r.Wild, r.TTL, r.IP, r.Loc)
 		case 'C':
@@ -84,7 +110,7 @@ func refFlatten(recs []dnsdata.VerifRec) []refRR {
 			out = append(out, refRR{o, r.Wild, dns.TypeTXT, fmt.Sprintf("TXT %d %s", r.TTL, r.Txt), r.Loc})
 		case '@':
 			out = append(out, refRR{o, false, dns.TypeMX, fmt.Sprintf("MX %d %d %s", r.TTL, r.Dist, refName(r.Target)), r.Loc})
-			addr(refName(r.Target), false, r.TTL, r.IP, r.Loc)
+			addr(refWire(r.Target), false, r.TTL, r.IP, r.Loc)
 		}
 	}
 	return out
@@ -97,20 +123,17 @@ func refVisible(r refRR, clientLoc []byte) bool {
 	return len(clientLoc) == 2 && r.loc[0] == clientLoc[0] && r.loc[1] == clientLoc[1]
 }
 
+const refRoot = "\x00"
+
 func refParent(name string) string {
-	if name == "." {
-		return "."
+	if name == refRoot {
+		return refRoot
 	}
-	i := strings.Index(name, ".")
-	if i+1 >= len(name) {
-		return "."
-	}
-	return name[i+1:]
+	return name[1+int(name[0]):]
 }
 
 func refFirstLabel(name string) string {
-	i := strings.Index(name, ".")
-	return name[:i]
+	return name[1 : 1+int(name[0])]
 }
 
 func refWildSafe(label string) bool {
@@ -134,7 +157,7 @@ type refAnswer struct {
 }
 
 // refdns: what the data file prescribes for (qname, qtype) and a client at clientLoc.
-// qname is lower-case with trailing dot; labels are given unescaped.
+// qname is in lower-case wire form.
 func refdns(rrs []refRR, qname string, qtype uint16, clientLoc []byte) refAnswer {
 	var res refAnswer
 	has := func(name string, typ uint16) bool {
@@ -152,7 +175,7 @@ func refdns(rrs []refRR, qname string, qtype uint16, clientLoc []byte) refAnswer
 			found = true
 			break
 		}
-		if cut == "." {
+		if cut == refRoot {
 			break
 		}
 		cut = refParent(cut)
@@ -182,7 +205,7 @@ func refdns(rrs []refRR, qname string, qtype uint16, clientLoc []byte) refAnswer
 				}
 			}
 		}
-		if foundRows || level == cut || level == "." || !refWildSafe(refFirstLabel(level)) {
+		if foundRows || level == cut || level == refRoot || !refWildSafe(refFirstLabel(level)) {
 			break
 		}
 		level, wild = refParent(level), true
@@ -235,33 +258,73 @@ func sameStrings(a, b []string) bool {
 	return true
 }
 
-// query names: wire form (so that non-wild-safe labels are exact) and the unescaped lower-case form
-var verifC01Names = []struct{ wire, plain string }{
-	{"\x01z\x00", "z."}, {"\x01c\x01z\x00", "c.z."}, {"\x01g\x01c\x01z\x00", "g.c.z."}, {"\x01s\x01z\x00", "s.z."},
-	{"\x01n\x01z\x00", "n.z."}, {"\x01n\x01c\x01z\x00", "n.c.z."}, {"\x01x\x01g\x01c\x01z\x00", "x.g.c.z."},
-	{"\x02n@\x01z\x00", "n@.z."}, {"\x01N\x01Z\x00", "n.z."}, {"\x01y\x00", "y."},
+// query names in wire form; a '?' byte is an arbitrary byte chosen by the solver (so the name may
+// or may not coincide with a declared owner, may differ in case only, may be non-wild-safe, and
+// may need escaping in presentation form).
+var verifC01Names = []string{
+	"\x01z\x00", "\x01?\x01z\x00", "\x01?\x01c\x01z\x00", "\x01?\x01g\x01c\x01z\x00", "\x01g\x01?\x01z\x00",
+	"\x02n?\x01z\x00", "\x01?\x01Z\x00", "\x01?\x00",
 }
 
 func H01_res() {
 	k, layout := nd.Param("k"), nd.Param("layout")
 	pool := verifC01Pool()
+	// every record goes through its data-file line and the real text parser
+	dnsdata.VerifViaText = true
 	recs := []dnsdata.VerifRec{
-		{Kind: 'Z', Dom: []byte("z"), TTL: 2560, Target: []byte("ns.z")},
-		{Kind: '&', Dom: []byte("z"), TTL: 259200, Target: []byte("ns.z"), IP: []byte{192, 0, 2, 2}},
+		{Kind: '.', Dom: []byte("z"), TTL: 2560, Target: []byte("ns.z"), IP: []byte{192, 0, 2, 2}},
 	}
 	for i := 0; i < k; i++ {
 		recs = append(recs, pool[nd.Choice(len(pool))])
 	}
+	verifC01Run(recs, layout)
+}
+
+// H01_nested: a zone inside a zone (g.c.z has its own SOA) below wildcards of the outer zone:
+// names that do not exist in the inner zone must not be answered from the outer zone's wildcards.
+func H01_nested() {
+	layout := nd.Param("layout")
+	dnsdata.VerifViaText = true
+	pool := verifC01Pool()
+	recs := []dnsdata.VerifRec{
+		{Kind: '.', Dom: []byte("z"), TTL: 2560, Target: []byte("ns.z"), IP: []byte{192, 0, 2, 2}},
+		pool[15], // '.' g.c.z
+		pool[6],  // +*.c.z
+		pool[5],  // '*.z located TXT
+		pool[11], // '*.c.z TXT
+	}
+	if nd.Param("extra") == 1 {
+		recs = append(recs, pool[nd.Choice(len(pool))])
+	}
+	verifC01Run(recs, layout)
+}
+
+func verifC01Run(recs []dnsdata.VerifRec, layout int) {
 	recsWithMaps := append(append([]dnsdata.VerifRec{}, recs...), verifMaps()...)
 	env := verifRecordsHandler(recsWithMaps, layout, CacheConfig{})
 
-	qn := verifC01Names[nd.Choice(len(verifC01Names))]
-	name, _, err := dns.UnpackDomainName([]byte(qn.wire), 0)
+	wire := []byte(verifC01Names[nd.Choice(len(verifC01Names))])
+	lower := make([]byte, len(wire))
+	for i := range wire {
+		if wire[i] == '?' {
+			wire[i] = nd.Byte()
+		}
+		lower[i] = wire[i]
+		if lower[i] >= 'A' && lower[i] <= 'Z' {
+			lower[i] += 'a' - 'A'
+		}
+	}
+	name, _, err := dns.UnpackDomainName(wire, 0)
 	nd.Assert(err == nil, "name-ok")
-	qtypes := []uint16{dns.TypeA, dns.TypeTXT, dns.TypeCNAME, dns.TypeNS, dns.TypeMX, dns.TypeSOA}
-	qtype := qtypes[nd.Choice(len(qtypes))]
-	ci := 2 * nd.Choice(2) // 10.0.0.1 -> L1, 12.0.0.1 -> no location
-	clientLoc := [][]byte{verifL1, nil, nil}[ci]
+	// any query type except the two with resolution rules of their own (ANY: every type
+	// matches; DS: answered from the parent side of a cut)
+	qtype := nd.Uint16()
+	nd.Assume(qtype != dns.TypeANY)
+	nd.Assume(qtype != dns.TypeDS)
+	// resolver address classes: 10/8 is location L1, 11/8 is L2 in the resolver map of z and
+	// *.z, 12/8 has none (bound: the address reaches the handler as text, so it stays concrete)
+	ci := nd.Choice(3)
+	clientLoc := [][]byte{verifL1, verifL2, nil}[ci]
 
 	q := new(dns.Msg)
 	q.Id = nd.Uint16()
@@ -271,7 +334,7 @@ func H01_res() {
 	nd.Assert(len(w.written) == 1, "one-reply")
 	resp := w.written[0]
 
-	want := refdns(refFlatten(recs), qn.plain, qtype, clientLoc)
+	want := refdns(refFlatten(recs), string(lower), qtype, clientLoc)
 	if want.refused {
 		nd.Assert(resp.Rcode == dns.RcodeRefused, "refused-outside-every-zone")
 		return
